@@ -35,6 +35,7 @@ def shards(tier, seed):
     out = [dict(shard=i, n=n) for i in range(12)]
     out += [dict(kind='syntax', part=i, parts=4) for i in range(4)]
     out += [dict(kind='stereo', shard=i, n=60 if tier == 'quick' else 800) for i in range(2)]
+    out += [dict(kind='elements', zs=list(range(z, min(z + 15, 119)))) for z in range(1, 119, 15)]
     return out
 
 
@@ -71,6 +72,8 @@ bond_query = st.fixed_dictionaries({
 def run_shard(shard, tier, seed):
     if shard.get('kind') == 'syntax':
         return direct_run(ID, syntax_cases(shard), check_case)
+    if shard.get('kind') == 'elements':
+        return direct_run(ID, [{'element': z} for z in shard['zs']], check_case)
     if shard.get('kind') == 'stereo':
         strat = st.fixed_dictionaries({'stereo': molgen.mol_specs(max_atoms=10, corpus_w=4, curated_w=3, graph_w=4, sym_w=0,
                                                                   literal_w=0)})
@@ -242,7 +245,72 @@ def satisfies(q, v):
 
 # ---------------------------------------------------------------------------------------------------
 
+def check_elements(case, rec):
+    """exhaustive over the periodic table: element, #n, element lists (two and three members drawn from the whole table, heavy
+    elements included), A and M against a one-atom and a three-atom molecule of that element; truth = symbol membership"""
+    from chython import smarts, MoleculeContainer, QueryContainer
+    from chython.periodictable import Element, ListElement, QueryElement, AnyElement, AnyMetal
+    z = case['element']
+    if z > 115:
+        rec.count('skip:Lv/Ts/Og are treated as equal by the default matcher (documented)')
+        return
+    cls = Element.from_atomic_number(z)
+    sym = cls.__name__
+    syms = [Element.from_atomic_number(i).__name__ for i in range(1, 119)]
+    mols = []
+    m1 = MoleculeContainer()
+    m1.add_atom(cls(), 1)
+    mols.append(('[%s]' % sym, m1, 1))
+    m3 = MoleculeContainer()
+    m3.add_atom('Cl', 1)
+    m3.add_atom(cls(), 2)
+    m3.add_atom('Cl', 3)
+    m3.add_bond(1, 2, 1)
+    m3.add_bond(2, 3, 1)
+    mols.append(('Cl[%s]Cl' % sym, m3, 2))
+    others = [syms[(z + d - 1) % 118] for d in (1, 7, 19, 40, 77)] + ['C', 'Pt', 'U', 'Au', 'Hg', 'La', 'Ba', 'Cs']
+    others = [o for o in dict.fromkeys(others) if o != sym and o not in ('Lv', 'Ts', 'Og')]
+    others += [x for x in ('Fe', 'W', 'Pb', 'Bi', 'Ce') if x != sym and x not in others][:10 - len(others)]
+    lists = [[sym, o] for o in others] + [[o, sym] for o in others[:4]] + [[others[0], sym, others[5]], [others[6], others[7], sym]] + \
+            [[others[i], others[j]] for i, j in ((0, 1), (5, 6), (7, 8), (2, 9))] + [[others[6], others[8], others[7]]]
+    queries = [('[%s]' % sym, lambda: QueryElement.from_symbol(sym)(), True), ('[#%d]' % z, lambda: QueryElement.from_atomic_number(z)(), True),
+               ('[A]', lambda: AnyElement(), True)]
+    for L in lists:
+        queries.append(('[%s]' % ','.join(L), (lambda L=L: ListElement(list(L))), sym in L))
+    if sym not in AMBIGUOUS:
+        queries.append(('[M]', lambda: AnyMetal(), sym not in NONMETAL))
+    for label, m, centre in mols:
+        for text, api, want in queries:
+            if z == 1 and text == '[H]':
+                continue  # [H] in SMARTS text is the hydrogen atom: same thing, but the spelling is special-cased by readers
+            for how in ('text', 'api'):
+                if how == 'text':
+                    ok, q = rec.guard('smarts-parse', smarts, text)
+                    if not ok:
+                        return
+                else:
+                    ok, qa = rec.guard('api-build', api)
+                    if not ok:
+                        return
+                    q = QueryContainer('el')
+                    q.add_atom(qa, 1)
+                rec.evaluations += 1
+                ok, got = rec.guard('match', lambda: {mp[next(iter(q))] for mp in q.get_mapping(m, automorphism_filter=False)})
+                if not ok:
+                    return
+                if text == '[M]' and how == 'api' and label.startswith('Cl['):
+                    pass
+                if (centre in got) != want:
+                    rec.fail('primitive', f'{text} ({how}) on {label}: atom of {sym} {"matched" if centre in got else "not matched"}, '
+                                          f'expected {"match" if want else "no match"}', sig=f'{how}:element-sweep')
+                    return
+                rec.nt((text, label, how))
+    rec.sample('element-sweep', dict(element=sym, lists=[','.join(L) for L in lists[:4]]), cap=3)
+
+
 def check_case(case, rec):
+    if 'element' in case:
+        return check_elements(case, rec)
     if 'syntax' in case:
         return check_syntax(case, rec)
     if 'stereo' in case:
